@@ -1,4 +1,4 @@
-import Infretis.Lemmas.FsReach
+import Infretis.Lemmas.FsRestart
 /-!
 # C08 — a crash at any point leaves a restartable, consistent state
 
@@ -503,5 +503,218 @@ example :
     ∧ Effect.remove (.tfile 3 40) ∈ delEffs cfgRep { pn := 3, names := [50, 51] } d3
     ∧ (run (delEffs cfgRep { pn := 3, names := [50, 51] } d3) d3).files.get (.tfile 3 40) = .absent := by
   decide
+
+/-! ## the restart procedure has effects of its own; arbitrary life cycles of the main process
+
+`Model/FsRestart.lean`: `restartRun` = setup_config (restart branch) + clean_data_file +
+setup_internal + the initiation loop, as outcome AND effect list; `runScript` = any sequence of
+worker output, completed steps, deaths at any point of a step, restart attempts that die at any
+point of the restart procedure, and restarts that get through.  This is the function the driver
+runs (`script`, `rcrash`). -/
+
+/-- `restartRun` decides exactly like `restartOutcome` (the atomic restart of `Model/Fs.lean`) -/
+theorem restartRun_agrees (cfg : Cfg) (M : Manifest) (x : RDisk) (jobs : Nat) :
+    (restartRun cfg M x jobs).1 = restartOutcome M .restartToml x.d :=
+  restartRun_outcome cfg M x jobs
+
+/-- what the property demands of a state.  Alive: memory and disk are consistent (`Inv`: complete
+    record, every live path completely stored and loadable, data rows whole / unique / disjoint from
+    the live set) and no temp file of the data file lies around.  Dead: a restart from what is on
+    disk starts, and the state it works on is consistent in the same sense. -/
+def Good (cfg : Cfg) (M : Manifest) : Option Mem → RDisk → Prop
+  | some m, x => Inv M m x.d ∧ x.dtmp = .absent
+  | none, x => ∃ r, restartOutcome M .restartToml x.d = .starts r
+      ∧ Inv M (restore M r x.d.files) (restoreDisk cfg r x.d) ∧ tmpOK x r.active = true
+
+/-- the outcome of the job treated by a step / interrupted by a crash is well formed (`WF`) in the
+    state it is applied to -/
+def EventWF (cfg : Cfg) (M : Manifest) (s : PState) : Event → Prop
+  | .step c => ∀ m, s.mem = some m → WF cfg M m c s.x.d
+  | .crash c _ _ => ∀ m, s.mem = some m → WF cfg M m c s.x.d
+  | _ => True
+
+def ScriptWF (cfg : Cfg) (M : Manifest) : PState → List Event → Prop
+  | _, [] => True
+  | s, e :: es => EventWF cfg M s e ∧ ScriptWF cfg M (runEvent cfg M s e) es
+
+/-- **restart_crash_good**: a restart attempt that dies at ANY point `(k, half)` of the restart
+    procedure (before / after the open of the data file's temp file, half-way through writing it,
+    before / after the `os.replace`, between the worker directories) leaves a state from which the
+    next restart starts from the SAME record, loads the same paths and works on the same cleaned data
+    file; a leftover temp file exists only while cleaning is still due. -/
+theorem restart_crash_good (cfg : Cfg) (M : Manifest) (x : RDisk) (hclean : cfg.cleanOnRestart = true)
+    (r : Rec) (hs : restartOutcome M .restartToml x.d = .starts r) (htmp : tmpOK x r.active = true)
+    (jobs k : Nat) (half : Bool) :
+    let x' := crashAtR (restartRun cfg M x jobs).2 x k half
+    restartOutcome M .restartToml x'.d = .starts r
+      ∧ restore M r x'.d.files = restore M r x.d.files
+      ∧ restoreDisk cfg r x'.d = restoreDisk cfg r x.d
+      ∧ tmpOK x' r.active = true := by
+  intro x'
+  have he : x' = crashAtR (cleanEffs x.d.data r.active ++ workerDirs jobs) x k half := by
+    show crashAtR (restartRun cfg M x jobs).2 x k half = _
+    rw [restartRun_effs_of_starts cfg M x jobs r hs, if_pos hclean]
+  obtain ⟨D, t, hx', hD⟩ := crash_clean_shape x r.active jobs k half
+  rw [hx'] at he
+  rw [he]
+  refine ⟨?_, rfl, ?_, ?_⟩
+  · exact (restartOutcome_congr M _ x.d rfl rfl).trans hs
+  · unfold restoreDisk
+    rw [if_pos hclean, if_pos hclean]
+    rcases hD with ⟨hD, _⟩ | ⟨hD, _⟩
+    · rw [hD]
+    · show ({ x.d with data := cleanData D r.active } : Disk) = _
+      rw [hD, cleanData_idem]
+  · simp only [tmpOK, Bool.or_eq_true, beq_iff_eq, bne_iff_ne, ne_eq] at htmp ⊢
+    rcases hD with ⟨hD, ht⟩ | ⟨hD, ht⟩
+    · by_cases hc : cleanData x.d.data r.active = x.d.data
+      · left
+        rw [ht hc]
+        rcases htmp with h | h
+        · exact h
+        · exact absurd hc h
+      · right
+        show ¬ cleanData D r.active = D
+        rw [hD]; exact hc
+    · left; exact ht
+
+/-- one event keeps the state good -/
+theorem event_good (cfg : Cfg) (M : Manifest) (hv : cfg.variant = .repaired)
+    (hclean : cfg.cleanOnRestart = true) (s : PState) (e : Event)
+    (hG : Good cfg M s.mem s.x) (hW : EventWF cfg M s e) :
+    Good cfg M (runEvent cfg M s e).mem (runEvent cfg M s e).x := by
+  obtain ⟨mem, x⟩ := s
+  cases mem with
+  | some m =>
+    obtain ⟨hI, ht⟩ := hG
+    cases e with
+    | work files => exact ⟨inv_workFiles M m x.d files hI, ht⟩
+    | step c => exact ⟨step_inv cfg M m c x.d hI (hW m rfl), ht⟩
+    | crash c k half =>
+      have hWF := hW m rfl
+      obtain ⟨r, hr⟩ := crash_restartable cfg M m c x.d hI hWF hv k half
+      refine ⟨r, hr, crash_restore_inv cfg M m c x.d hI hWF hclean k half r
+        (starts_complete M _ r hr), ?_⟩
+      show tmpOK ⟨crashStep cfg m c x.d k half, x.dtmp⟩ r.active = true
+      have ht' : x.dtmp = .absent := ht
+      simp [tmpOK, ht']
+    | restartCrash jobs k half => exact ⟨hI, ht⟩
+    | restart jobs => exact ⟨hI, ht⟩
+  | none =>
+    obtain ⟨r, hs, hI, ht⟩ := hG
+    cases e with
+    | work files => exact ⟨r, hs, hI, ht⟩
+    | step c => exact ⟨r, hs, hI, ht⟩
+    | crash c k half => exact ⟨r, hs, hI, ht⟩
+    | restartCrash jobs k half =>
+      obtain ⟨h1, h2, h3, h4⟩ := restart_crash_good cfg M x hclean r hs ht jobs k half
+      refine ⟨r, h1, ?_, h4⟩
+      show Inv M (restore M r (crashAtR (restartRun cfg M x jobs).2 x k half).d.files)
+        (restoreDisk cfg r (crashAtR (restartRun cfg M x jobs).2 x k half).d)
+      rw [h2, h3]; exact hI
+    | restart jobs =>
+      have ho : (restartRun cfg M x jobs).1 = .starts r := by rw [restartRun_outcome]; exact hs
+      have hx : runR (restartRun cfg M x jobs).2 x
+          = ⟨{ x.d with data := cleanData x.d.data r.active },
+             if cleanData x.d.data r.active = x.d.data then x.dtmp else .absent⟩ := by
+        rw [restartRun_effs_of_starts cfg M x jobs r hs, if_pos hclean, run_clean_full]
+      have hrd : restoreDisk cfg r x.d = { x.d with data := cleanData x.d.data r.active } := by
+        unfold restoreDisk; rw [if_pos hclean]
+      simp only [runEvent, ho, hx]
+      refine ⟨by rw [← hrd]; exact hI, ?_⟩
+      simp only [tmpOK, Bool.or_eq_true, beq_iff_eq, bne_iff_ne, ne_eq] at ht
+      show (if cleanData x.d.data r.active = x.d.data then x.dtmp else DTmp.absent) = DTmp.absent
+      split
+      · rename_i hc
+        rcases ht with h | h
+        · exact h
+        · exact absurd hc h
+      · rfl
+
+/-- **script_good** (the code as it is now: temp file + os.replace for restart.toml,
+    `clean_data_file` on restart): ANY sequence of worker output, completed steps of any kind
+    (reject, accept, zero swap, with and without delete_old / delete_old_all), deaths at any point
+    `(k, half)` of any step, restart attempts that die at any point of the restart procedure, and
+    completed restarts — in any order and number — leads from a good state to a good state: alive
+    states are consistent, and from every dead state the restart starts, loads every path of the
+    record and works on whole, unique data rows. -/
+theorem script_good (cfg : Cfg) (M : Manifest) (hv : cfg.variant = .repaired)
+    (hclean : cfg.cleanOnRestart = true) (es : List Event) :
+    ∀ (s : PState), Good cfg M s.mem s.x → ScriptWF cfg M s es →
+      Good cfg M (runScript cfg M s es).mem (runScript cfg M s es).x := by
+  induction es with
+  | nil => intro s hG _; exact hG
+  | cons e es ih =>
+    intro s hG hW
+    show Good cfg M (runScript cfg M (runEvent cfg M s e) es).mem (runScript cfg M (runEvent cfg M s e) es).x
+    exact ih _ (event_good cfg M hv hclean s e hG hW.1) hW.2
+
+/-- **script_restartable**: whenever a script ends without a live process — however many crashes
+    inside steps and inside restarts lie behind — the restart procedure itself (`restartRun`) starts. -/
+theorem script_restartable (cfg : Cfg) (M : Manifest) (hv : cfg.variant = .repaired)
+    (hclean : cfg.cleanOnRestart = true) (es : List Event) (s : PState)
+    (hG : Good cfg M s.mem s.x) (hW : ScriptWF cfg M s es)
+    (hdead : (runScript cfg M s es).mem = none) (jobs : Nat) :
+    ∃ r, (runScript cfg M s es).restartNow cfg M jobs = .starts r
+      ∧ ∀ a ∈ r.active, ∃ p, loadPath M (runScript cfg M s es).x.d.files a = some p ∧ p.pn = a
+          ∧ pathOK (runScript cfg M s es).x.d.files p = true := by
+  have h := script_good cfg M hv hclean es s hG hW
+  rw [hdead] at h
+  obtain ⟨r, hs, hI, _⟩ := h
+  refine ⟨r, by unfold PState.restartNow; rw [restartRun_outcome]; exact hs, ?_⟩
+  intro a ha
+  obtain ⟨r', hr', _, hact, _, _⟩ := hI.record
+  have hfiles : (restoreDisk cfg r (runScript cfg M s es).x.d).files = (runScript cfg M s es).x.d.files := by
+    unfold restoreDisk; split <;> rfl
+  have hrr : r' = r := by
+    have h1 : (restoreDisk cfg r (runScript cfg M s es).x.d).restart = .complete r := by
+      unfold restoreDisk; split <;> exact starts_complete M _ r hs
+    rw [h1] at hr'; injection hr' with h; exact h.symm
+  subst hrr
+  rw [hact] at ha
+  obtain ⟨p, hp, rfl⟩ := List.mem_map.1 ha
+  have hok := (hI.live_ok p hp).1
+  rw [hfiles] at hok
+  exact ⟨p, loadPath_of_pathOK M _ p hok (hI.live_ok p hp).2.2, rfl, hok⟩
+
+/-- **script_rows_unique**: after any script, once a process is alive again (or still), the data
+    file has whole rows only, every path at most once, and no live path — also when restarts
+    themselves were interrupted while rewriting the data file. -/
+theorem script_rows_unique (cfg : Cfg) (M : Manifest) (hv : cfg.variant = .repaired)
+    (hclean : cfg.cleanOnRestart = true) (es : List Event) (s : PState)
+    (hG : Good cfg M s.mem s.x) (hW : ScriptWF cfg M s es) (m' : Mem)
+    (halive : (runScript cfg M s es).mem = some m') :
+    let d' := (runScript cfg M s es).x.d
+    d'.data.torn = false ∧ d'.data.garbled = 0 ∧ d'.data.rows.Nodup
+      ∧ (∀ p ∈ d'.data.rows, p ∉ pns m'.live) ∧ (runScript cfg M s es).x.dtmp = .absent := by
+  have h := script_good cfg M hv hclean es s hG hW
+  rw [halive] at h
+  obtain ⟨hI, ht⟩ := h
+  obtain ⟨a, b, c, d⟩ := (rowsOK_iff _ _).1 hI.rows
+  exact ⟨a, b, c, d, ht⟩
+
+open Witness in
+/-- non-vacuity, on the witness step of above (path 1 replaced by path 3, delete_old_all): the
+    process dies after the data row was appended (k = 12), the first restart dies half-way through
+    writing the cleaned data file (point (1, half) of the restart), the second one right before the
+    `os.replace` (point 2: temp file complete), the third one gets through; the worker redoes the
+    job, the step completes.  All hypotheses hold; the row of path 1 is in the data file once; the
+    temp file is gone. -/
+example :
+    let s0 : PState := { mem := some m0, x := ⟨d0, .absent⟩ }
+    let es : List Event := [.crash c0 12 false, .restartCrash 1 1 true, .restartCrash 1 2 false,
+                            .restart 1, .work [(40, 400), (41, 410)], .step c0]
+    let s := runScript cfgRep M s0 es
+    (restartRun cfgRep M (runScript cfgRep M s0 (es.take 1)).x 1).2.length = 4
+    ∧ (runScript cfgRep M s0 (es.take 2)).x.dtmp = .part
+    ∧ (runScript cfgRep M s0 (es.take 2)).x.d.data.rows = [1]
+    ∧ (runScript cfgRep M s0 (es.take 3)).x.dtmp = .complete { rows := [], garbled := 0, torn := false }
+    ∧ (runScript cfgRep M s0 (es.take 4)).x.d.data.rows = []
+    ∧ (runScript cfgRep M s0 (es.take 4)).x.dtmp = .absent
+    ∧ (s.mem.map (·.cstep)) = some 2 ∧ s.x.d.data.rows = [1] ∧ s.x.dtmp = .absent := by
+  decide
+
+open Witness in
+example : Good cfgRep M (some m0) ⟨d0, .absent⟩ := ⟨inv0, rfl⟩
 
 end Infretis.C08
